@@ -499,7 +499,7 @@ impl DynamicTable {
     }
 
     pub fn update_largest_received(&mut self, increment: usize) {
-        self.largest_known_received += increment;
+        self.largest_known_received = self.largest_known_received.saturating_add(increment);
 
         if self.blocked_count == 0 {
             return;
@@ -507,7 +507,7 @@ impl DynamicTable {
 
         let blocked = self
             .blocked_streams
-            .split_off(&(self.largest_known_received + 1));
+            .split_off(&self.largest_known_received.saturating_add(1));
         let acked = std::mem::replace(&mut self.blocked_streams, blocked);
 
         if !acked.is_empty() {
